@@ -572,13 +572,14 @@ fn scene_oracles(sc: &SceneP, o: [f32; 2], line: &str, out: &mut Out) {
 		} else if gl > 1.0 + 1.0e-4 || gr > 1.0 + 1.0e-4 || gl < -1.0e-6 || gr < -1.0e-6 {
 			out.oracle_fail("level_range", line);
 		}
-		// (e) favours the ear on the emitter's side (outside the head)
-		if d >= 2.0 * EAR {
-			if local[0] > 1.0e-3 * scale && gr < gl - 1.0e-4 {
+		// (e) favours the ear on the emitter's side. Outside the head (distance >= EAR_DISTANCE) this is
+		//     the property; inside the head it is known to fail (recorded finding, separate oracle name).
+		let wrong_side = (local[0] > 1.0e-3 * scale && gr < gl - 1.0e-4) || (local[0] < -1.0e-3 * scale && gl < gr - 1.0e-4);
+		if wrong_side {
+			if d >= 1.05 * EAR {
 				out.oracle_fail("favours_near_ear", line);
-			}
-			if local[0] < -1.0e-3 * scale && gl < gr - 1.0e-4 {
-				out.oracle_fail("favours_near_ear", line);
+			} else if d < EAR {
+				out.oracle_fail("favours_near_ear_inside_head", line);
 			}
 		}
 	}
@@ -721,6 +722,11 @@ fn gen_emitter(rng: &mut Rng, lp: V3, lq: Q4, mn: f32, mx: f32) -> V3 {
 			};
 			let dir = qrot(random_unit_quat(rng), [1.0, 0.0, 0.0]);
 			f3(add3(d3(lp), scale3(dir, dist)))
+		}
+		6 if rng.chance(1, 3) => {
+			// inside the head (closer than EAR_DISTANCE): the far ear can win here (known finding)
+			let r = [rng.uniform(-0.09, 0.09), rng.uniform(-0.05, 0.05), rng.uniform(-0.09, 0.09)];
+			f3(add3(d3(lp), qrot(qn, r)))
 		}
 		5 => {
 			// on one of the listener's axes
